@@ -3,6 +3,11 @@
   alpha_rename  - every local variable of every function renamed (parameters, globals, attributes untouched)
   flip_ifs      - every two-armed if written the other way round
   document      - every function that has no docstring gets one, and every parameter without a default gets an annotation
+  fold_returns / unfold_returns - `x = e; return x` <-> `return e` (both directions, everywhere)
+  guard_clauses - `if c: <returns> else: B` -> `if c: <returns>` followed by B
+  no_loop_else  - `for .. else: E` without a break -> the loop followed by E
+  dict_calls    - dict literals with identifier keys (inside functions) -> dict(k=v, ..)
+  (fstrings - '..{}..'.format(a) -> f-string - is a development twin only (tools/twins2.py): C05/C06 answer it with exit 2, not silence)
 The checks must stay silent on all of them (no rule may depend on layout, on the spelling of a local, on the polarity a
 condition happens to be written in, or on the position of a statement in its body)."""
 import ast
@@ -142,3 +147,211 @@ def document(repo):
         ast.fix_missing_locations(tree)
         out[f] = ast.unparse(tree) + "\n"
     return out
+
+
+# ---------------------------------------------------------------------------------------------------------------------------
+# second generation of whole-tree twins: the statement-level rewrites the independent refactoring rounds used most often
+
+def _block_fields(node):
+    for fld in ("body", "orelse", "finalbody"):
+        blk = getattr(node, fld, None)
+        if isinstance(blk, list) and blk and isinstance(blk[0], ast.stmt):
+            yield fld, blk
+    for h in getattr(node, "handlers", []) or []:
+        yield "body", h.body
+
+
+def _rewrite_blocks(tree, fn):
+    """apply fn(list of statements) -> list of statements to every statement list of the tree, innermost first"""
+    for node in ast.walk(tree):
+        for fld, blk in list(_block_fields(node)):
+            new = fn(blk, node)
+            if new is not blk:
+                blk[:] = new
+    return tree
+
+
+def _always_leaves(stmts):
+    if not stmts:
+        return False
+    last = stmts[-1]
+    if isinstance(last, (ast.Return, ast.Raise)):
+        return True
+    return isinstance(last, ast.If) and bool(last.orelse) and _always_leaves(last.body) and _always_leaves(last.orelse)
+
+
+def _apply(repo, rewrite):
+    out = {}
+    for f in code_files(repo):
+        tree = rewrite(ast.parse(repo.text(f)))
+        ast.fix_missing_locations(tree)
+        out[f] = ast.unparse(tree) + "\n"
+    return out
+
+
+def fold_returns(repo):
+    """`x = <expr>` directly followed by `return x` becomes `return <expr>`"""
+    def fn(blk, owner):
+        out, i, changed = [], 0, False
+        while i < len(blk):
+            a = blk[i]
+            b = blk[i + 1] if i + 1 < len(blk) else None
+            if isinstance(a, ast.Assign) and len(a.targets) == 1 and isinstance(a.targets[0], ast.Name) and isinstance(b, ast.Return) \
+                    and isinstance(b.value, ast.Name) and b.value.id == a.targets[0].id:
+                out.append(ast.copy_location(ast.Return(value=a.value), a))
+                i += 2
+                changed = True
+                continue
+            out.append(a)
+            i += 1
+        return out if changed else blk
+
+    def rewrite(tree):
+        for f in [n for n in ast.walk(tree) if isinstance(n, (ast.FunctionDef, ast.AsyncFunctionDef))]:
+            if any(isinstance(n, (ast.Global, ast.Nonlocal)) for n in ast.walk(f)):
+                continue
+            _rewrite_blocks(f, fn)
+        return tree
+    return _apply(repo, rewrite)
+
+
+def unfold_returns(repo):
+    """`return <expr>` (anything but a name or a constant) becomes `result_ = <expr>` + `return result_`"""
+    def rewrite(tree):
+        for f in [n for n in ast.walk(tree) if isinstance(n, (ast.FunctionDef, ast.AsyncFunctionDef))]:
+            names = {n.id for n in ast.walk(f) if isinstance(n, ast.Name)} | {a.arg for a in f.args.args}
+            tmp = "result_"
+            while tmp in names:
+                tmp += "_"
+            own = set()
+            stack = list(f.body)
+            while stack:            # statements of f itself, not of nested functions
+                n = stack.pop()
+                own.add(id(n))
+                if isinstance(n, (ast.FunctionDef, ast.AsyncFunctionDef, ast.ClassDef)):
+                    continue
+                for _, blk in _block_fields(n):
+                    stack.extend(blk)
+
+            def fn(blk, owner, tmp=tmp, own=own):
+                out, changed = [], False
+                for st in blk:
+                    if id(st) in own and isinstance(st, ast.Return) and st.value is not None and not isinstance(st.value, (ast.Name, ast.Constant)):
+                        out.append(ast.copy_location(ast.Assign(targets=[ast.Name(id=tmp, ctx=ast.Store())], value=st.value), st))
+                        out.append(ast.copy_location(ast.Return(value=ast.Name(id=tmp, ctx=ast.Load())), st))
+                        changed = True
+                    else:
+                        out.append(st)
+                return out if changed else blk
+            _rewrite_blocks(f, fn)
+        return tree
+    return _apply(repo, rewrite)
+
+
+def guard_clauses(repo):
+    """`if c: <always returns / raises> else: B` becomes `if c: ...` followed by B (and the same for the last arm of an elif chain)"""
+    def fn(blk, owner):
+        out, changed = [], False
+        for st in blk:
+            if isinstance(st, ast.If) and st.orelse and _always_leaves(st.body) and not (len(st.orelse) == 1 and isinstance(st.orelse[0], ast.If)
+                                                                                         and not _always_leaves(st.orelse[0].body)):
+                rest = st.orelse
+                st.orelse = []
+                out.append(st)
+                out.extend(rest)
+                changed = True
+            else:
+                out.append(st)
+        return out if changed else blk
+
+    def rewrite(tree):
+        for _ in range(3):
+            _rewrite_blocks(tree, fn)
+        return tree
+    return _apply(repo, rewrite)
+
+
+def no_loop_else(repo):
+    """`for .. else: E` / `while .. else: E` whose loop contains no `break` of its own: E simply follows the loop"""
+    def own_break(loop):
+        stack = list(loop.body)
+        while stack:
+            n = stack.pop()
+            if isinstance(n, ast.Break):
+                return True
+            if isinstance(n, (ast.For, ast.While, ast.FunctionDef, ast.AsyncFunctionDef, ast.ClassDef)):
+                if isinstance(n, (ast.For, ast.While)):
+                    stack.extend(n.orelse)
+                continue
+            for _, blk in _block_fields(n):
+                stack.extend(blk)
+        return False
+
+    def fn(blk, owner):
+        out, changed = [], False
+        for st in blk:
+            if isinstance(st, (ast.For, ast.While)) and st.orelse and not own_break(st):
+                rest = st.orelse
+                st.orelse = []
+                out.append(st)
+                out.extend(rest)
+                changed = True
+            else:
+                out.append(st)
+        return out if changed else blk
+    return _apply(repo, lambda tree: _rewrite_blocks(tree, fn))
+
+
+def dict_calls(repo):
+    """a dict literal inside a function whose keys are all identifier strings becomes dict(k=v, ..)"""
+    import keyword
+
+    class T(ast.NodeTransformer):
+        depth = 0
+
+        def visit_FunctionDef(self, node):
+            self.depth += 1
+            self.generic_visit(node)
+            self.depth -= 1
+            return node
+
+        def visit_Dict(self, node):
+            self.generic_visit(node)
+            if self.depth and node.keys and all(isinstance(k, ast.Constant) and isinstance(k.value, str) and k.value.isidentifier()
+                                                and not keyword.iskeyword(k.value) for k in node.keys) \
+                    and len({k.value for k in node.keys}) == len(node.keys):
+                return ast.copy_location(ast.Call(func=ast.Name(id="dict", ctx=ast.Load()), args=[],
+                                                  keywords=[ast.keyword(arg=k.value, value=v) for k, v in zip(node.keys, node.values)]), node)
+            return node
+    return _apply(repo, lambda tree: T().visit(tree))
+
+
+def fstrings(repo):
+    """'..{}..'.format(a, b) with plain positional placeholders becomes an f-string"""
+    import string
+
+    class T(ast.NodeTransformer):
+        def visit_Call(self, node):
+            self.generic_visit(node)
+            if isinstance(node.func, ast.Attribute) and node.func.attr == "format" and isinstance(node.func.value, ast.Constant) \
+                    and isinstance(node.func.value.value, str) and not node.keywords and node.args \
+                    and not any(isinstance(a, ast.Starred) for a in node.args):
+                try:
+                    parts = list(string.Formatter().parse(node.func.value.value))
+                except ValueError:
+                    return node
+                if sum(1 for _, fld, _, _ in parts if fld is not None) != len(node.args) or any(
+                        fld not in (None, "") or (spec or conv) for _, fld, spec, conv in parts):
+                    return node
+                # quotes or backslashes inside the pieces would need escaping rules that differ between versions: leave those alone
+                if any(c in lit for lit, _, _, _ in parts for c in "'\"\\{}") or any(not isinstance(a, (ast.Name, ast.Attribute)) for a in node.args):
+                    return node
+                vals, it = [], iter(node.args)
+                for lit, fld, _, _ in parts:
+                    if lit:
+                        vals.append(ast.Constant(value=lit))
+                    if fld is not None:
+                        vals.append(ast.FormattedValue(value=next(it), conversion=-1, format_spec=None))
+                return ast.copy_location(ast.JoinedStr(values=vals), node)
+            return node
+    return _apply(repo, lambda tree: T().visit(tree))
